@@ -6,6 +6,6 @@ From Q.Spec Require Import Entries Image Cells.
 From Q.Model Require Import Dev Crash.
 Extraction Language OCaml.
 Extraction "../driver/model.ml"
-  parse_hdr hdr_features_ok hdr_supported validb safeb safeb_short_l1 leaked undercounted guest_mapping guest_entry stored refs
+  parse_hdr hdr_features_ok hdr_supported validb safeb safeb_short_l1 validb_short_l1 leaked undercounted guest_mapping guest_entry stored refs
   ref_list covered_nonzero overcounted tables_ok refcounts_exact refcounts_safe guest_clusters copied_refs copied_single
   read_block write discard grow invb mk_state free drefs touches clusters_of disciplined cells cells_dom nodupb.
